@@ -75,7 +75,7 @@ Definition point2 (k : kind) : bool :=
   | _ => false
   end.
 
-(* stacking.go:116-119: the box defines a (real) stacking context *)
+(* stacking.go:119-122: the box defines a (real) stacking context *)
 Definition creates_ctx (i : binfo) : bool :=
   (bpos i && match bz i with Some _ => true | None => false end)
   || bopac i || btrans i || bclip i.
@@ -98,7 +98,7 @@ with ctx :=
 Definition ctx_z (c : ctx) : Z := let 'Ctx _ _ z _ _ _ _ _ _ := c in z.
 Definition ctx_info (c : ctx) : binfo := let 'Ctx i _ _ _ _ _ _ _ _ := c in i.
 
-(* stacking.go:32-70 NewStackingContext *)
+(* stacking.go:32-73 NewStackingContext (line numbers of /repo at commit a25f3fa) *)
 Definition new_context (i : binfo) (kids : list node) (childContexts : list ctx)
            (blocks : list node) (floats : list ctx) (bac : list node) : ctx :=
   (* 45-53: partition by sign, in the order of childContexts *)
@@ -108,7 +108,7 @@ Definition new_context (i : binfo) (kids : list node) (childContexts : list ctx)
   (* 54-59: sort.SliceStable by zIndex (contract: Base/SortStable.v) *)
   let neg := isort ctx_z neg in
   let pos := isort ctx_z pos in
-  (* 63-68 *)
+  (* 63-71 *)
   let z := match bz i with
            | None => 0%Z
            | Some k => if bpos i then k else 0%Z       (* position static: z-index does not apply *)
@@ -124,28 +124,28 @@ Record acc := mkAcc {
   a_ctxs : list ctx
 }.
 
-(* stacking.go:84-90: append(a[:i], append([]T{item}, a[i:]...)...) ; every call
+(* stacking.go:87-93: append(a[:i], append([]T{item}, a[i:]...)...) ; every call
    site passes an index <= len(a) (a length read earlier from a list that only grows) *)
 Definition insert_at {A} (i : nat) (x : A) (l : list A) : list A :=
   firstn i l ++ x :: skipn i l.
 
-(* a box that is not dispatched (non-parent box returned as is, 174-176) *)
+(* a box that is not dispatched (non-parent box returned as is, 177-179) *)
 Fixpoint plain (b : box) : node :=
   match b with Box i cs => NBox i (map plain cs) end.
 
-(* stacking.go:92-190, body of NewStackingContextFromBox after the children of
-   the box have been dispatched by `dk` (173-188), given the incoming shared
+(* stacking.go:95-193, body of NewStackingContextFromBox after the children of
+   the box have been dispatched by `dk` (176-191), given the incoming shared
    list (Some l: childContexts != nil, None: childContexts = &children).
    Returns the context and the final content of (deref childContexts).              *)
 Definition from_inner (dk : acc -> list node * acc) (i : binfo) (plain_kids : list node)
            (shared : option (list ctx)) : ctx * list ctx :=
   let st0 := mkAcc [] [] [] (match shared with Some l => l | None => [] end) in
   let '(kids, st) := if is_parent (bkind i) then dk st0 else (plain_kids, st0) in
-  let children := match shared with Some _ => [] | None => a_ctxs st end in   (* 93-96 *)
+  let children := match shared with Some _ => [] | None => a_ctxs st end in   (* 96-99 *)
   (new_context i kids children (a_blocks st) (a_floats st) (a_bac st), a_ctxs st).
 
-(* stacking.go:109-171 `dispatch`; result None = Go's nil (box removed from the
-   normal tree).  AbsolutePlaceholder unwrapping (110-111) is done by the
+(* stacking.go:112-174 `dispatch`; result None = Go's nil (box removed from the
+   normal tree).  AbsolutePlaceholder unwrapping (113-114) is done by the
    projection (the abstract tree has the laid-out box in place).             *)
 Fixpoint dispatch (b : box) (st : acc) {struct b} : option node * acc :=
   match b with
@@ -154,41 +154,41 @@ Fixpoint dispatch (b : box) (st : acc) {struct b} : option node * acc :=
                  match l with
                  | [] => ([], st)
                  | c :: r =>
-                   let '(o, st1) := dispatch c st in                      (* 180 *)
+                   let '(o, st1) := dispatch c st in                      (* 183 *)
                    let '(ns, st2) := dk r st1 in
-                   (match o with Some n => n :: ns | None => ns end, st2) (* 181-183 *)
+                   (match o with Some n => n :: ns | None => ns end, st2) (* 184-186 *)
                  end) in
     let inner := from_inner (dk cs) i (map plain cs) in
-    if creates_ctx i then                                                  (* 116-119 *)
-      (* 123: (deref childContexts) = append(ptr childContexts, NewStackingContextFromBox(box, page, nil)) *)
+    if creates_ctx i then                                                  (* 119-122 *)
+      (* 126: (deref childContexts) = append(ptr childContexts, NewStackingContextFromBox(box, page, nil)) *)
       (None, mkAcc (a_blocks st) (a_bac st) (a_floats st) (a_ctxs st ++ [fst (inner None)]))
-    else if bpos i then                                                    (* 125 *)
-      (* 126-128: panic("expected auto z-index") is unreachable: creates_ctx i = false
+    else if bpos i then                                                    (* 128 *)
+      (* 129-131: panic("expected auto z-index") is unreachable: creates_ctx i = false
          and bpos i = true force bz i = None (StackingProofs.dispatch_panic_unreachable) *)
-      let index := length (a_ctxs st) in                                   (* 132 *)
-      let '(c, ctxs) := inner (Some (a_ctxs st)) in                        (* 133 *)
+      let index := length (a_ctxs st) in                                   (* 135 *)
+      let '(c, ctxs) := inner (Some (a_ctxs st)) in                        (* 136 *)
       (None, mkAcc (a_blocks st) (a_bac st) (a_floats st) (insert_at index c ctxs))
-    else if bfloat i then                                                  (* 134-135 *)
+    else if bfloat i then                                                  (* 137-138 *)
       let '(c, ctxs) := inner (Some (a_ctxs st)) in
       (None, mkAcc (a_blocks st) (a_bac st) (a_floats st ++ [c]) ctxs)
-    else if inline_block_or_flex (bkind i) then                            (* 136-140 *)
+    else if inline_block_or_flex (bkind i) then                            (* 139-143 *)
       let '(c, ctxs) := inner (Some (a_ctxs st)) in
       (Some (NSub c), mkAcc (a_blocks st) (a_bac st) (a_floats st) ctxs)
     else
-      (* 142-155 *)
+      (* 145-158 *)
       let blocksIndex := if block_level (bkind i) then Some (length (a_blocks st)) else None in
       let bacIndex := if block_level (bkind i) then Some (length (a_bac st))
                       else if table_cell (bkind i) then Some (length (a_bac st)) else None in
-      (* 157: box = dispatchChildren(box) *)
+      (* 160: box = dispatchChildren(box) *)
       let '(kids, st1) := if is_parent (bkind i) then dk cs st else (map plain cs, st) in
       let n := NBox i kids in
-      (* 160-165 *)
+      (* 163-168 *)
       let blocks := match blocksIndex with Some k => insert_at k n (a_blocks st1) | None => a_blocks st1 end in
       let bac := match bacIndex with Some k => insert_at k n (a_bac st1) | None => a_bac st1 end in
       (Some n, mkAcc blocks bac (a_floats st1) (a_ctxs st1))
   end.
 
-(* 173-188 dispatchChildren's loop *)
+(* 176-191 dispatchChildren's loop *)
 Fixpoint dispatch_list (l : list box) (st : acc) : list node * acc :=
   match l with
   | [] => ([], st)
@@ -205,7 +205,7 @@ Definition from_box_shared (b : box) (shared : option (list ctx)) : ctx * list c
 (* NewStackingContextFromBox(box, page, nil) *)
 Definition from_box (b : box) : ctx := fst (from_box_shared b None).
 
-(* stacking.go:72-82 NewStackingContextFromPage *)
+(* stacking.go:75-85 NewStackingContextFromPage *)
 Definition from_page (pi : binfo) (page_children : list box) : ctx :=
   new_context pi [] (map from_box page_children) [] [] [].
 
